@@ -1,3 +1,3 @@
 SPECIFICATION GenSpec
-INVARIANTS Emit GenTotal
+INVARIANTS Emit GenTotal WellFormedIsValue
 CHECK_DEADLOCK FALSE
